@@ -127,6 +127,12 @@ def g_write(seq, cls: str, opts, entry: str = "stream_frames_gen", bindings=()) 
         out = io.BytesIO()
         gser.grouped_stream_to_file((s for s in [g_sink(seq, bindings)]), out, options=opts)
         return out.getvalue()
+    if entry == "grouped_split":
+        # the statements arrive as two sinks written through one shared stream
+        out = io.BytesIO()
+        parts = [seq[:1], seq[1:]]
+        gser.grouped_stream_to_file((g_sink(p) for p in parts), out, options=opts)
+        return out.getvalue()
     if entry == "sink_serialize":
         out = io.BytesIO()
         g_sink(seq, bindings).serialize(out)
